@@ -126,6 +126,40 @@ func c01(r *core.Report) {
 	r.Rule("C01-REASSEMBLY-COMPLETE", "assembly/delivery only after the completion test; the test covers every part", 5)
 	ruleComplete(r, "C01-REASSEMBLY-COMPLETE")
 
+	// ---- C01-NO-TRUNCATION: quicswarm delimits a tell by the END of its stream (the receiver reads to
+	// EOF). A stream that is ended gracefully after a write that failed half way (deadline, cancellation)
+	// makes the receiver deliver the part that was written as the whole message: on the error edge of the
+	// payload write the stream must be aborted (CancelWrite) before the deferred/explicit Close ends it
+	r.Rule("C01-NO-TRUNCATION", "quicswarm Tell aborts the stream when the payload write fails", 1)
+	if qt := needFn(r, "s/quicswarm", "Swarm.Tell"); qt != nil {
+		n := 0
+		for _, fn := range core.WithAnons(qt) {
+			for _, in := range core.AllInstrs(fn) {
+				w, ok := in.(*ssa.Call)
+				if !ok || !strings.HasSuffix(core.CalleeName(w.Common()), "net.Buffers).WriteTo") {
+					continue
+				}
+				n++
+				cut := cutErrNilOf(w) // removes the edges on which the write's error is nil
+				isCancel := func(i2 ssa.Instruction) bool {
+					ci, ok := i2.(ssa.CallInstruction)
+					return ok && ci.Common().IsInvoke() && ci.Common().Method.Name() == "CancelWrite"
+				}
+				okAbort := core.GuardEdges(fn, cut) > 0
+				reached := core.Reach(fn, w, cut, isCancel)
+				for _, ret := range core.Returns(fn) {
+					if reached[ret] {
+						okAbort = false
+					}
+				}
+				r.Check(okAbort, "C01-NO-TRUNCATION", core.FnName(fn)+" write error", p.Pos(w.Pos()), "every path on which the write failed calls CancelWrite before returning", "when the payload write fails (context deadline in the middle of a large tell) the stream is still ended gracefully: the receiver reads to the end of the stream and delivers the bytes written so far as a complete, shorter message")
+			}
+		}
+		if n == 0 {
+			r.Fail("C01-NO-TRUNCATION: no payload write found in quicswarm Tell (anchor stale)")
+		}
+	}
+
 	// ---- C01-ADDRESSEE (shared with C04-P2PKE): "to whom it was told": on the identity-addressed
 	// layer a Tell to X@addr goes out only on a channel whose authenticated key fingerprints to X
 	r.Rule("C01-ADDRESSEE", "p2pkeswarm sends a Tell only on a channel whose authenticated identity equals the destination's", 2)
